@@ -219,7 +219,7 @@ func insertAt(body *[]ref.Node, i int, n ref.Node) {
 func useNode(name string) ref.Node { return &ref.Print{E: &ref.DataRef{Name: name}} }
 
 var c07Kinds = []string{"undeclared-name", "use-after-block", "use-before-def", "self-reference", "loop-var-after-loop", "loop-var-in-ifempty", "loop-var-in-collection",
-	"unused-param", "unused-let", "let-named-ij", "undeclared-call-param", "missing-required-param", "unknown-callee", "both-param-styles"}
+	"unused-param", "unused-let", "let-named-ij", "undeclared-call-param", "missing-required-param", "unknown-callee", "both-param-styles", "alias-of-another-file"}
 
 // inject applies the site-th injection of the kind to the bundle in place; ok=false when there is no such site.
 func inject(b *ref.Bundle, kind string, site int) (ok bool, what string) {
@@ -347,6 +347,38 @@ func inject(b *ref.Bundle, kind string, site int) (ok bool, what string) {
 		c.Params = append(c.Params, ref.Param{Name: "zq7", E: &ref.Lit{V: ref.Int(1)}})
 		c.SelfClose = false
 		return true, "call passes param zq7 the callee does not declare"
+	case "alias-of-another-file":
+		// {call c.t} where {alias a.b.c} stands in another file of the bundle, not in this one: an unknown callee
+		k := 0
+		for _, f1 := range b.Files {
+			for _, a := range f1.Aliases {
+				dot := strings.LastIndex(a, ".")
+				for _, f2 := range b.Files {
+					skip := f2 == f1 || f2.Namespace == a || len(f2.Templates) == 0
+					for _, a2 := range f2.Aliases {
+						if a2[strings.LastIndex(a2, ".")+1:] == a[dot+1:] {
+							skip = true
+						}
+					}
+					if skip {
+						continue
+					}
+					for _, f3 := range b.Files {
+						if f3.Namespace != a || len(f3.Templates) == 0 {
+							continue
+						}
+						if k == site {
+							name := a[dot+1:] + "." + f3.Templates[0].Name
+							t := f2.Templates[0]
+							t.Body = append(t.Body, &ref.CallT{Target: name, NameSrc: name, DataAll: true, SelfClose: true})
+							return true, "call through the alias " + a + " that only " + f1.Name + " declares, from " + f2.Name
+						}
+						k++
+					}
+				}
+			}
+		}
+		return false, ""
 	case "missing-required-param":
 		calls := collectCalls(b)
 		k := 0
